@@ -123,6 +123,7 @@ BestMeaning == pc \in {"trace", "done"} => Score = LcskOpt(ms, k)
 Final == pc = "done" =>
     /\ LcskppOk(ms, k, path, Score)                 \* the trace predicate accepts the machine
     /\ Score = LcskOptDef(ms, k)                    \* ... and means the maximum over all valid chains
+    /\ DpVectorOk(ms, k, dp)                        \* the conformance (DRIFT) predicate accepts the machine's dp
 
 OptLemma == ei = 0 => LcskOpt(ms, k) = LcskOptDef(ms, k)
 
